@@ -322,6 +322,11 @@ Definition base_bp (n i : nat) : nat * nat := (n * 2 - i * 2, n * 2 - i * 2 + 1)
 Definition is_right_tok (g : grammar) (s : sym) : bool :=
   match s with T t => existsb (Nat.eqb t) (g_right g) | Eps => false end.
 
+(* the operator of a branch: the first element behind the left operand that check_recursive does not look
+   through *)
+Definition operator_of (ops : list regex) (l : nat) : option regex :=
+  find (fun o => negb (is_rec_filtered o)) (skipn (S l) ops).
+
 (* the pair is swapped (once) when the operator's first set contains a right-associative symbol *)
 Definition binding_powers (g : grammar) (fi : smap) (bs : list recursion) : list (nat * (nat * nat)) :=
   map (fun p =>
@@ -329,7 +334,7 @@ Definition binding_powers (g : grammar) (fi : smap) (bs : list recursion) : list
          let bp := base_bp (length bs) i in
          match b with
          | RecLeftRight (RCat _ ops) l _ =>
-           match nth_error ops (S l) with
+           match operator_of ops l with
            | Some operand =>
              let k := length (filter (is_right_tok g) (get fi (rid_of operand))) in
              (rid_of (rec_regex b), if Nat.eqb k 0 then bp else (snd bp, fst bp))
@@ -342,7 +347,7 @@ Definition mixed_assoc (g : grammar) (fi : smap) (bs : list recursion) : list na
   flat_map (fun b =>
               match b with
               | RecLeftRight (RCat _ ops) l _ =>
-                match nth_error ops (S l) with
+                match operator_of ops l with
                 | Some operand =>
                   let f := get fi (rid_of operand) in
                   if existsb (is_right_tok g) f && existsb (fun s => negb (is_right_tok g s)) f
@@ -466,23 +471,31 @@ Fixpoint set_regex (x : regex) (used : list nat) : list nat :=
   | _ => used
   end.
 
-(* bodies of part rules are swept even when nothing refers to the part rule (fix 872091c) *)
-Definition usage_pass (used : list nat) : list nat :=
+(* bodies of part rules are swept even when nothing refers to the part rule: first what the start rule
+   reaches ([with_parts] = false), then what the part rules reach on their own *)
+Definition usage_pass (with_parts : bool) (used : list nat) : list nat :=
   fold_left (fun u p =>
                let '(i, ru) := p in
-               if nmem (r_decl ru) u || existsb (fun q => Nat.eqb (fst q) i) (g_parts g)
+               if nmem (r_decl ru) u || (with_parts && existsb (fun q => Nat.eqb (fst q) i) (g_parts g))
                then match r_body ru with Some b => set_regex b u | None => u end else u)
             (enumerate 0 (g_rules g)) used.
 
-Fixpoint usage_iter (fuel : nat) (used : list nat) : list nat :=
+Fixpoint usage_iter (fuel : nat) (with_parts : bool) (used : list nat) : list nat :=
   match fuel with
   | 0 => used
-  | S f => let u' := usage_pass used in if Nat.eqb (length u') (length used) then u' else usage_iter f u'
+  | S f => let u' := usage_pass with_parts used in
+           if Nat.eqb (length u') (length used) then u' else usage_iter f with_parts u'
   end.
 
+(* a part rule that only part rules refer to stays unmarked (RecoverySetGenerator gives exactly those the
+   start node as predecessor) *)
 Definition calc_used : list nat :=
   let init := match nth_rule g (g_start g) with Some ru => [r_decl ru] | None => [] end in
-  usage_iter (S (length (g_rules g) + length (g_tok_decls g))) (fold_left (fun u d => nadd d u) (g_skipped g) init).
+  let fuel := S (length (g_rules g) + length (g_tok_decls g)) in
+  let u1 := usage_iter fuel false (fold_left (fun u d => nadd d u) (g_skipped g) init) in
+  let u2 := usage_iter fuel true u1 in
+  let part_decls := flat_map (fun q => match nth_rule g (fst q) with Some ru => [r_decl ru] | None => [] end) (g_parts g) in
+  filter (fun d => negb (nmem d part_decls && negb (nmem d u1))) u2.
 End Usage.
 
 (* ------------------------------------------------------------------ ordered-choice containment *)
